@@ -172,6 +172,15 @@ class OdxLinkDatabase:
     def __init__(self) -> None:
         self._db: Dict[OdxDocFragment, Dict[str, Any]] = {}
 
+    def __copy__(self) -> "OdxLinkDatabase":
+        # the tables of the individual document fragments must not
+        # be shared with the copy, otherwise adding objects to the
+        # copy also modifies the original database
+        result = OdxLinkDatabase()
+        result._db = {doc_frag: frag_db.copy() for doc_frag, frag_db in self._db.items()}
+
+        return result
+
     @overload
     def resolve(self, ref: OdxLinkRef, expected_type: None = None) -> Any:
         ...
